@@ -2,8 +2,9 @@
   Driver family `blk` (C13): the blocking event machine `Ferrous.Blk`.
 
   One session = one line stream.  Keys and elements travel as lower-case hex (`-` = empty).
-    cfg <npe> <wap> <uas> <rit> <ddk>  -> ok        quirk switches (0/1): notifyPerElement wakeAtPush
-                                                   unregisterAllOnServe refuseBlockingInTx dedupKeys; resets the state
+    cfg <npe> <wap> <uas> <rit> <ddk> <dra> <nbh> <dfb> -> ok   quirk switches (0/1): notifyPerElement wakeAtPush
+                                                   unregisterAllOnServe refuseBlockingInTx dedupKeys drainAll
+                                                   noticeBlockedHangup deferBatchWhenBlocked; resets the state
     reset                              -> ok
     ev wakeups                         -> <A> <tags> <outs>
     ev timeouts <now>                  -> <A> <tags> <outs>
@@ -177,21 +178,25 @@ def topTags (q : Quirks) (now : Nat) (c : Conn) (s : State) : Cmd → List Strin
     else []
   | cmd => if (s.conns c).inTx then [] else dataTags s c cmd
 
-def topSeqTags (q : Quirks) (now : Nat) (c : Conn) : State → List Cmd → List String
-  | _, [] => []
-  | s, cmd :: r => topTags q now c s cmd ++ topSeqTags q now c (topCmd q now c s cmd) r
+def topSeqTags (q : Quirks) (now : Nat) (c : Conn) : List Cmd → State → List String
+  | [], _ => []
+  | cmd :: r, s =>
+    topTags q now c s cmd ++
+      (if q.deferBatchWhenBlocked && ((topCmd q now c s cmd).conns c).blocked.isSome then []
+       else topSeqTags q now c r (topCmd q now c s cmd))
 
 def eventTags (q : Quirks) (s : State) : Event → List String
-  | .conn c now cmds => if canRun s c then topSeqTags q now c s cmds else []
+  | .conn c now cmds =>
+    if canRun s c then topSeqTags q now c ((s.conns c).pending ++ cmds) (setConn s c fun cs => { cs with pending := [] }) else []
   | .hangup c => if (s.conns c).blocked.isSome then ["hangup-blocked"] else []
   | _ => []
 
 def step (ss : Sess) (ws : List String) : Sess × String :=
   match ws with
-  | ["cfg", a, b, c, d, e] =>
-    match readBool a, readBool b, readBool c, readBool d, readBool e with
-    | some a, some b, some c, some d, some e => ({ q := ⟨a, b, c, d, e⟩, s := {} }, "ok")
-    | _, _, _, _, _ => (ss, "bad-op")
+  | "cfg" :: flags =>
+    match flags.mapM readBool with
+    | some [a, b, c, d, e, f, g, h] => ({ q := ⟨a, b, c, d, e, f, g, h⟩, s := {} }, "ok")
+    | _ => (ss, "bad-op")
   | ["reset"] => ({ ss with s := {} }, "ok")
   | "ev" :: rest =>
     match readEvent rest with
@@ -206,7 +211,7 @@ def step (ss : Sess) (ws : List String) : Sess × String :=
     match c.toNat?, readOp o, parseHexList ks, (match dl with | "inf" => some 0 | "past" => some 1 | "future" => some 1000000000 | _ => none) with
     | some c, some op, some keys, some t =>
       if keys.isEmpty then (ss, "ok")
-      else ({ ss with s := dataCmd ss.q 0 c c { ss.s with store := [] } (.bpop op keys t) }, "ok")
+      else ({ ss with s := dataCore ss.q 0 c c { ss.s with store := [] } (.bpop op keys t) }, "ok")
     | _, _, _, _ => (ss, "bad-op")
   | ["rnotify", k] =>
     match ofHex k with
